@@ -17,8 +17,9 @@ C09, second part: `SchemaOK` is NECESSARY for the JSON round trip, and `validate
 * `C09_foreign_iff` — `validate_field` accepts a foreign field object exactly when it is `validField` (side condition
   `rangeField` of `Spec/SchemaSide.lean`: numeric parameters are values of their Rust types).
   `C09_foreign_entries_refused`: a foreign field with a map, at any depth, whose entries struct carries a strategy no struct
-  admits is refused; `C09_foreign_entries_unchecked_pinned`: before `fix: validate_map_field validates the entries field
-  itself` such a field was accepted (witness), which is why `C09_foreign_iff` used to need a second side condition.
+  admits is refused; `C09_foreign_entries_unchecked_pinned`: the pinned `acceptForeignPinned` (the code before repo fix
+  cb2c848, `validate_map_field validates the entries field itself`) accepts such a field (witness); on the repaired code the
+  entries clause is a conclusion (`entriesField_of_validate`), so `C09_foreign_iff` has the single side condition `rangeField`.
 -/
 namespace SaModel.Props.C09
 open SaModel SaModel.Dsl SaModel.SchemaJson
@@ -253,7 +254,7 @@ example : (acceptForeign foreignEntriesWitness).isOk = false :=
 -- a struct-admitted strategy on the entries field is accepted (the repair refuses only what a struct field refuses)
 example : (acceptForeign (.mk "m" (.map (.mk "entries" (.struct (.cons (.mk "key" .utf8 false []) (.cons (.mk "value" .int32 true []) .nil)))
     false [(STRATEGY_KEY, "MapAsStruct")]) false) false [])).isOk = true := by decide +kernel
--- a strategy that is known but not a struct's, deeper inside: refused now, accepted before
+-- a strategy that is known but not a struct's, deeper inside: refused by the repaired code, accepted by the pinned one
 example : (acceptForeign (.mk "l" (.list (.mk "m" (.map (.mk "entries" (.struct (.cons (.mk "key" .utf8 false []) (.cons (.mk "value" .int32 true []) .nil)))
       false [(STRATEGY_KEY, "UnknownVariant")]) false) false [])) false [])).isOk = false ∧
     (acceptForeignPinned (.mk "l" (.list (.mk "m" (.map (.mk "entries" (.struct (.cons (.mk "key" .utf8 false []) (.cons (.mk "value" .int32 true []) .nil)))
